@@ -104,6 +104,23 @@ function QT(id, co)
   end
   return 1
 end
+function QD(id, co)
+  if seen[id] then return 1 end
+  seen[id] = true
+  for lvl = 0, 1 do
+    local inf = getinfo(co, lvl, "Sl")
+    if inf == nil then break end
+    RI(id, lvl, inf.what, inf.currentline, inf.linedefined, inf.lastlinedefined)
+    local i = 1
+    while true do
+      local n, v = getlocal(co, lvl, i)
+      if n == nil or n == "(*temporary)" then break end
+      RL(id, lvl, 0, i, n, v)
+      i = i + 1
+    end
+  end
+  return 1
+end
 function sink(...) return 1 end
 function IDH(m) return m end
 T = { id = function(self, ...) return self end }
